@@ -752,6 +752,40 @@ func (e *ruleEnv) instantiate(c map[string]interface{}) []*ruleText {
 			return []*ruleText{rt, rn}
 		}
 		return []*ruleText{rt}
+	case "sysprefix":
+		rt := &ruleText{ast: newAst(), c07: true, cls: "sysprefix"}
+		rt.ast.List, rt.ast.Action = str("list"), actions[r.Intn(2)]
+		rt.args = []string{"-a", rt.ast.Action + "," + rt.ast.List}
+		var nums []int
+		var words []string
+		for i := 0; i <= num("top"); i++ {
+			nums = append(nums, i)
+			words = append(words, strconv.Itoa(i))
+		}
+		rt.ast.Syscalls = astSyscalls{All: false, Nums: nums, Names: []astName{}}
+		rt.args = append(rt.args, "-S", strings.Join(words, ","))
+		return []*ruleText{rt}
+	case "emptykey":
+		rt := &ruleText{ast: newAst(), c07: true, cls: "emptykey"}
+		if str("kind") == "watch" {
+			rt.ast.Kind, rt.ast.WType = "watch", "path"
+			rt.ast.WPath, rt.ast.WPerm = bytesOfS(e.file), bytesOfS("wa")
+			rt.args = []string{"-w", e.file, "-p", "wa"}
+		} else {
+			rt.ast.List, rt.ast.Action = "exit", "always"
+			rt.args = []string{"-a", "always,exit"}
+			e.syscallShape(rt, "one", "")
+		}
+		rt.ast.Keys = [][]int{}
+		for _, ch := range str("keys") {
+			k := ""
+			if ch == 'a' {
+				k = strings.ReplaceAll(e.word(1+r.Intn(6), false), ",", "_")
+			}
+			rt.args = append(rt.args, "-k", k)
+			rt.ast.Keys = append(rt.ast.Keys, bytesOfS(k))
+		}
+		return []*ruleText{rt}
 	case "sysbig":
 		rt := &ruleText{ast: newAst(), c07: false, cls: "sysbig"}
 		rt.ast.List, rt.ast.Action = lists[r.Intn(2)], actions[r.Intn(2)]
